@@ -26,6 +26,9 @@ EXPLANATION = (
     "Not decided: the numeric round-trip tolerance, flag boundaries at exactly "
     "half a turn, arcs whose sweep exceeds a full turn."
 )
+TECHNIQUE = (
+    "static analysis (no execution): writer followed by partial evaluation per (mode, form) and compared, operand by operand, with the reader table derived from the lexer summaries and the builder summaries; format-conversion precision lint"
+)
 ASSUMPTIONS = [
     "The reader-side table is taken from the lexer and builder source on every run (shared with C01).",
     "Round-trip equality of values is numeric and not decided; the rules decide that the same quantities are written in the order they are read.",
